@@ -32,6 +32,24 @@ pub struct Blueprint {
     encoder: Encoder,
 }
 
+#[cfg(robopoker_verif)]
+impl Blueprint {
+    /// verification hooks: a solver around a given profile (empty encoder = stand-in abstraction),
+    /// access to its profile, and the private tree sampler
+    pub fn verif_new(profile: Profile) -> Self {
+        Self {
+            profile: Arc::new(RwLock::new(profile)),
+            encoder: Encoder::default(),
+        }
+    }
+    pub fn verif_profile(&self) -> Arc<RwLock<Profile>> {
+        self.profile.clone()
+    }
+    pub fn verif_tree(&self) -> Tree {
+        self.tree()
+    }
+}
+
 impl Blueprint {
     /// after training, use the learned Profile to advise
     /// a Spot on how to play.
